@@ -226,6 +226,8 @@ def strat_seam(draw):
     """Pairs whose seam settings are related: equal / prefix / permuted / extended, with staggered starts on the left
     and staggered stops on the right (the configurations the implementation merges)."""
     S = draw(st.lists(st.sampled_from(SEAM_NAMES), min_size=1, max_size=3))
+    if draw(st.integers(0, 1)) == 0:
+        S = S + [draw(st.sampled_from(S))]   # an equal-valued duplicate among the settings at the seam
     ta = draw(gen.texts(1, 5, nonascii=False))
     tb = draw(gen.texts(1, 5, nonascii=False))
     ra = []
@@ -233,13 +235,22 @@ def strat_seam(draw):
     for i in order:
         start = draw(st.integers(0, len(ta) - 1))
         ra.append({'s': [{'k': 'name', 'v': S[i]}], 'a': start, 'b': None, 'top': draw(st.sampled_from([True, True, False]))})
-    how = draw(st.sampled_from(['same', 'same', 'prefix', 'perm', 'extra', 'other']))
+    how = draw(st.sampled_from(['same', 'same', 'prefix', 'perm', 'extra', 'other', 'sub', 'sub']))
+    if len(S) >= 3 and draw(st.integers(0, 1)) == 0:
+        # staggered starts, later applications starting further left (stop order != precedence order on the left)
+        starts = sorted(draw(st.lists(st.integers(0, len(ta) - 1), min_size=len(S), max_size=len(S))), reverse=True)
+        for r_, st_ in zip(ra, starts):
+            r_['a'] = st_
+            r_['top'] = True
     if how == 'same':
         SB = list(S)
     elif how == 'prefix':
         SB = S[:draw(st.integers(1, len(S)))]
     elif how == 'perm':
         SB = list(draw(st.permutations(S)))
+    elif how == 'sub':
+        k = draw(st.integers(1, len(S)))
+        SB = list(draw(st.permutations(S)))[:k]
     elif how == 'extra':
         SB = list(S) + [draw(st.sampled_from(SEAM_NAMES))]
     else:
@@ -256,6 +267,27 @@ def strat_seam(draw):
     if draw(st.integers(0, 4)) == 0:
         a['ops'].append({'op': 'center', 'w': len(ta) + draw(st.integers(1, 4)), 'f': ' ', 'ext': True, 'ip': True})
     return {'a': a, 'b': {'k': 'prog', 'p': b}}
+
+
+def enum_seam_small(tier):
+    """every left operand made of 1-3 applications of {red, blue, bold} ending at the seam with starts in {0,1,2} on a
+    3-character text, against every right operand starting with 1-3 of those settings (stops staggered or not)"""
+    import itertools
+    names = ['red', 'blue', 'bold']
+    for nl in (1, 2, 3):
+        for L in itertools.product(names, repeat=nl):
+            for starts in itertools.product(range(3), repeat=nl):
+                ra = [{'s': [{'k': 'name', 'v': nm}], 'a': st_, 'b': None, 'top': True} for nm, st_ in zip(L, starts)]
+                for nr in (1, 2, 3):
+                    if nl == 3 and nr == 3 and tier == 'quick' and starts[0] == 2:
+                        continue
+                    for R in itertools.product(names, repeat=nr):
+                        if not set(R) & set(L):
+                            continue
+                        for stag in (False, True):
+                            rb = [{'s': [{'k': 'name', 'v': nm}], 'a': 0, 'b': (None if not stag else 1 + (j % 2)), 'top': True} for j, nm in enumerate(R)]
+                            yield {'a': {'cls': 'S', 'ctor': {'k': 'ranges', 't': 'abc', 'r': ra}, 'ops': []},
+                                   'b': {'k': 'prog', 'p': {'cls': 'S', 'ctor': {'k': 'ranges', 't': 'de', 'r': rb}, 'ops': []}}}
 
 
 def strat_join():
@@ -328,8 +360,10 @@ SUBS = [
     Sub('many_pieces', eval_many, strategy=strat_many, quick=40, thorough=600,
         rule='chains of 8-90 small styled pieces (shadowed, conflicting and duplicate settings) concatenated with +=, join and +'),
     Sub('concat', eval_concat, strategy=strat_concat, quick=300, thorough=5000),
-    Sub('seam', eval_concat, strategy=strat_seam, quick=400, thorough=8000,
+    Sub('seam', eval_concat, strategy=strat_seam, quick=1200, thorough=12000,
         rule='seam-forcing generator: related settings on both sides of the seam'),
+    Sub('seam_small_exhaustive', eval_concat, enumerate=enum_seam_small,
+        exhaustive_note='all left operands built from <=3 applications of {red, blue, bold} ending at the seam x all right operands starting with <=3 of them'),
     Sub('join', eval_join, strategy=strat_join, quick=150, thorough=2500),
     Sub('rejoin', eval_rejoin, strategy=strat_value, quick=150, thorough=3000,
         rule='s[:k] + s[k:] for every k in 0..len of each generated value'),
